@@ -343,6 +343,13 @@ func runStScenario(sc StScenario) string {
 		}
 		r.mu.Unlock()
 	}
+	// a reload pass broadcasts once more per reloadable runnable whose entry its own store changed (the monitor
+	// was behind): at most one additional snapshot per SIGHUP and reloadable runnable
+	for _, r := range sc.Runs {
+		if r.Reloadable {
+			bound += len(sc.HupAtMs)
+		}
+	}
 	time.Sleep(2 * time.Millisecond)
 	type subQ struct{ eq bool }
 	subEq := make([]bool, len(sc.Subs))
